@@ -22,9 +22,9 @@ static std::string tohex(const std::string &s) { std::string o; char b[4]; for (
 static std::string fromhex(const std::string &h) { std::string o; for (size_t i = 0; i + 1 < h.size(); i += 2) o += (char)strtol(h.substr(i, 2).c_str(), nullptr, 16); return o; }
 
 // ===================================================================== C19
-struct C19Case { std::string content; int combo = DEFAULT_COMBO; int mode = 0 /*0 plain 1 counting*/; int chunk = 16; int start = 0; int special = 0 /*0 regular file 1 nonexistent 2 directory 3 bin file at offsets*/; int fit = 0 /*chunk fitting set on both instances beforehand*/; int nbuf = 1 << 16; uint64_t pre = 0; bool nulldest = false; /* counting calls with a NULL result pointer */ };
-static std::string ser19(const C19Case &c) { return "C19|" + std::to_string(c.combo) + "|" + std::to_string(c.mode) + "|" + std::to_string(c.chunk) + "|" + std::to_string(c.start) + "|" + std::to_string(c.special) + ":" + std::to_string(c.fit) + ":" + std::to_string(c.nbuf) + ":" + std::to_string(c.pre) + ":" + (c.nulldest ? "1" : "0") + "|" + tohex(c.content); }
-static bool parse19(const std::string &s, C19Case &c) { auto f = split(s, '|'); if (f.size() < 6 || f[0] != "C19") return false; c.combo = atoi(f[1].c_str()); c.mode = atoi(f[2].c_str()); c.chunk = atoi(f[3].c_str()); c.start = atoi(f[4].c_str()); { auto g = split(f[5], ':'); c.special = atoi(g[0].c_str()); c.fit = g.size() > 1 ? atoi(g[1].c_str()) : 0; c.nbuf = g.size() > 2 ? atoi(g[2].c_str()) : 1 << 16; c.pre = g.size() > 3 ? strtoull(g[3].c_str(), nullptr, 10) : 0; c.nulldest = g.size() > 4 && g[4] == "1"; } c.content = f.size() > 6 ? fromhex(f[6]) : ""; return true; }
+struct C19Case { std::string content; int combo = DEFAULT_COMBO; int mode = 0 /*0 plain 1 counting*/; int chunk = 16; int start = 0; int special = 0 /*0 regular file 1 nonexistent 2 directory 3 bin file at offsets*/; int fit = 0 /*chunk fitting set on both instances beforehand*/; int nbuf = 1 << 16; uint64_t pre = 0; bool nulldest = false; /* counting calls with a NULL result pointer */ bool closed0 = false; /* descriptor 0 is closed while the file entry point runs (the file then gets descriptor 0) */ };
+static std::string ser19(const C19Case &c) { return "C19|" + std::to_string(c.combo) + "|" + std::to_string(c.mode) + "|" + std::to_string(c.chunk) + "|" + std::to_string(c.start) + "|" + std::to_string(c.special) + ":" + std::to_string(c.fit) + ":" + std::to_string(c.nbuf) + ":" + std::to_string(c.pre) + ":" + std::to_string((c.nulldest ? 1 : 0) + (c.closed0 ? 2 : 0)) + "|" + tohex(c.content); }
+static bool parse19(const std::string &s, C19Case &c) { auto f = split(s, '|'); if (f.size() < 6 || f[0] != "C19") return false; c.combo = atoi(f[1].c_str()); c.mode = atoi(f[2].c_str()); c.chunk = atoi(f[3].c_str()); c.start = atoi(f[4].c_str()); { auto g = split(f[5], ':'); c.special = atoi(g[0].c_str()); c.fit = g.size() > 1 ? atoi(g[1].c_str()) : 0; c.nbuf = g.size() > 2 ? atoi(g[2].c_str()) : 1 << 16; c.pre = g.size() > 3 ? strtoull(g[3].c_str(), nullptr, 10) : 0; { int fl = g.size() > 4 ? atoi(g[4].c_str()) : 0; c.nulldest = fl & 1; c.closed0 = fl & 2; } } c.content = f.size() > 6 ? fromhex(f[6]) : ""; return true; }
 struct FV { bool ok = true; std::string symptom, detail; };
 
 #include <sys/resource.h>
@@ -72,8 +72,11 @@ static FV check19(const C19Case &c) {
   al::heap_fill((unsigned)(c.content.size() + c.start)); assemblyline_t f = asm_create_instance(bf.data(), N); prepare(f);
   int cf = -7, rf;
   std::vector<char> pth(path.begin(), path.end()); pth.push_back(0);
+  int saved0 = -1; if (c.closed0) { saved0 = fcntl(0, F_DUPFD_CLOEXEC, 30); close(0); }
+  struct Restore0 { int fd; ~Restore0() { if (fd >= 0) { dup2(fd, 0); close(fd); } } } restore0{saved0};
   if (c.mode == 1) rf = asm_assemble_file_counting_chunks(f, pth.data(), c.chunk, c.nulldest ? nullptr : &cf); else rf = (c.content.size() & 1) ? assemble_file(f, pth.data()) : asm_assemble_file(f, pth.data());
   int of = asm_get_offset(f);
+  if (saved0 >= 0) { dup2(saved0, 0); close(saved0); restore0.fd = -1; }
   if (have_fi()) alw.guard_files = 0;
   if (c.special == 1 || c.special == 2) { asm_destroy_instance(f); if (rf != EXIT_FAILURE) return bad("missing-file-accepted", std::string(c.special == 1 ? "nonexistent path" : "directory") + " returned " + std::to_string(rf)); return v; }
   al::heap_fill((unsigned)(c.content.size() + c.start + 3)); assemblyline_t s = asm_create_instance(bs.data(), N); prepare(s);
@@ -142,12 +145,12 @@ void prop_c19(hz::Ctx &ctx) {
   for (size_t size : sizes) for (int rep = 0; rep < reps; rep++) for (int mode = 0; mode < 2; mode++) {
     bool failing = rep % 3 == 2, final_nl = rep & 1, crlf = (rep >> 1) & 1;
     C19Case c; c.content = sized_content(P, r, size, failing, final_nl, crlf); c.combo = (int)r.below(12); c.mode = mode; static const int CH[] = {0, 1, 2, 5, 16, 17, 64}; c.chunk = CH[r.below(7)]; c.start = r.below(3) == 0 ? (int)r.below(200) : 0; c.special = rep % 2 == 0 && mode == 0 ? 3 : 0;
-    c.nulldest = mode == 1 && r.below(3) == 0;
+    c.nulldest = mode == 1 && r.below(3) == 0; c.closed0 = r.below(6) == 0;
     { static const int FIT[] = {0, 0, 0, 8, 16, 17}; c.fit = FIT[r.below(6)]; if (r.below(4) == 0) c.pre = r.next() | 1; if (r.below(5) == 0) { c.nbuf = (int)r.below(80); c.start = c.start % (c.nbuf + 1); c.pre = 0; } }
     if (!ctx.take()) continue;
     std::string id = ser19(c); if (!ctx.begin(id, "file of " + std::to_string(size) + " bytes")) continue;
     if (c.fit) ctx.cls("instance:chunk-fitting"); if (c.nbuf < 100) ctx.cls("buffer:small"); if (c.pre) ctx.cls("instance:previous-life");
-    ctx.cls("part:sizes"); if (size == 0) ctx.cls("size:empty"); if (size && size % 4096 == 0) ctx.cls("size:page-multiple"); if (!final_nl) ctx.cls("no-final-newline"); if (crlf) ctx.cls("crlf"); if (c.special == 3) ctx.cls("bin-file"); if (mode) ctx.cls("counting"); if (c.nulldest) ctx.cls("counting:null-result-pointer");
+    ctx.cls("part:sizes"); if (size == 0) ctx.cls("size:empty"); if (size && size % 4096 == 0) ctx.cls("size:page-multiple"); if (!final_nl) ctx.cls("no-final-newline"); if (crlf) ctx.cls("crlf"); if (c.special == 3) ctx.cls("bin-file"); if (mode) ctx.cls("counting"); if (c.nulldest) ctx.cls("counting:null-result-pointer"); if (c.closed0) ctx.cls("process:descriptor-0-closed");
     if (size == 0 || size % 4096 == 0 || !final_nl) ctx.nontrivial(id);
     FV v = check19(c);
     if (ctx.want_sample()) ctx.put_sample("file of " + std::to_string(size) + " bytes" + (final_nl ? "" : " without final newline") + (crlf ? " (CRLF)" : "") + (failing ? " possibly with a bad line" : "") + (mode ? ", counting" : "") + " -> " + (v.ok ? "same as the string call" : v.detail));
@@ -158,7 +161,7 @@ void prop_c19(hz::Ctx &ctx) {
   for (int mode = 0; mode < 2; mode++) { C19Case c; c.special = 5; c.mode = mode; if (!ctx.take()) continue; std::string id = ser19(c); if (!ctx.begin(id, "120 failing attempts, then a readable file")) continue; ctx.cls("part:many-failing-attempts"); ctx.nontrivial(id); FV v = check19(c); if (ctx.want_sample()) ctx.put_sample(std::string("120 failing file attempts with few descriptors left, then a readable file -> ") + (v.ok ? "assembles like its contents" : v.detail)); if (!v.ok) ctx.fail(fail19(c, v)); }
   // rapidcheck: arbitrary sizes up to several pages
   auto gen_case = rc::gen::apply([&](int size, int seed, int combo, int mode, int chunk, bool nl, bool crlf, bool failing, int start) { hz::Rng rr((uint64_t)seed); C19Case c; c.content = sized_content(P, rr, (size_t)size, failing, nl, crlf); c.combo = combo; c.mode = mode; c.chunk = chunk - 3; c.start = start; c.special = (seed & 3) == 0 ? 3 : 0;
-      c.nulldest = mode == 1 && ((seed >> 17) & 3) == 0;
+      c.nulldest = mode == 1 && ((seed >> 17) & 3) == 0; c.closed0 = ((seed >> 19) & 7) == 0;
       static const int FIT[] = {0, 0, 0, 8, 16, 17}; c.fit = FIT[(seed >> 4) % 6]; if (((seed >> 8) & 3) == 0) c.pre = (uint64_t)seed | 1; if (((seed >> 10) & 7) == 0) { c.nbuf = (seed >> 13) % 80; c.start %= (c.nbuf + 1); c.pre = 0; if (size > 200) c.content = sized_content(P, rr, (size_t)size % 60, failing, nl, crlf); } return c; },
     range(0, 17000), range(0, 1 << 30), range(0, 12), range(0, 2), range(0, 40), rc::gen::arbitrary<bool>(), rc::gen::arbitrary<bool>(), rc::gen::arbitrary<bool>(), range(0, 300));
   rc_rounds(ctx, "C19-files", ctx.thorough() ? 100000 : 12000, 100, [&]() {
@@ -174,7 +177,7 @@ void prop_c19(hz::Ctx &ctx) {
 struct C17Case { int scenario = 0; long fail_at = 0, fail_at2 = 0; uint64_t seed = 1, poolseed = 1; };
 static std::string ser17(const C17Case &c) { return "C17|" + std::to_string(c.poolseed) + "|" + std::to_string(c.seed) + "|" + std::to_string(c.scenario) + "|" + std::to_string(c.fail_at) + "|" + std::to_string(c.fail_at2); }
 static bool parse17(const std::string &s, C17Case &c) { auto f = split(s, '|'); if (f.size() != 6 || f[0] != "C17") return false; c.poolseed = strtoull(f[1].c_str(), nullptr, 10); c.seed = strtoull(f[2].c_str(), nullptr, 10); c.scenario = atoi(f[3].c_str()); c.fail_at = atol(f[4].c_str()); c.fail_at2 = atol(f[5].c_str()); return true; }
-static const char *SCN[] = {"create (library-managed buffer)", "create (caller buffer)", "long assembly with growth", "asm_assemble_file", "asm_assemble_file_counting_chunks", "asm_create_bin_file", "asm_assemble_file of a long program (growth)"};
+static const char *SCN[] = {"create (library-managed buffer)", "create (caller buffer)", "long assembly with growth", "asm_assemble_file", "asm_assemble_file_counting_chunks", "asm_create_bin_file", "asm_assemble_file of a long program (growth)", "asm_assemble_file of an empty file", "asm_assemble_file_counting_chunks of an empty file"};
 
 struct Step { std::string api; bool failed_call_here = false; };
 struct FI { bool ok = true; std::string symptom, detail; long calls = 0; std::string faulted; std::string trace; };
@@ -186,7 +189,7 @@ static FI run17(const Pool &P, const C17Case &c) {
   std::string prog_small = join(std::vector<std::string>{P.lines[r.below(P.lines.size())], P.lines[r.below(P.lines.size())], "ret"});
   std::string prog_long; int nlong = 1500 + (int)r.below(3000); for (int i = 0; i < nlong; i++) prog_long += P.lines[r.below(P.lines.size())] + "\n";
   std::string inpath = tmpdir() + "/fi_in.asm", outpath = tmpdir() + "/fi_out.bin";
-  write_file(inpath, c.scenario == 6 ? prog_long : prog_small);
+  write_file(inpath, c.scenario == 6 ? prog_long : c.scenario >= 7 ? std::string((c.seed % 3) == 2 ? "\n" : "") : prog_small);
   unlink(outpath.c_str());
   std::vector<uint8_t> ext(4096, 0xcc);
   alw.guard_code = 1; alw.salt = (long)(c.seed % 1000003); alw_reset(); alw.fail_at = c.fail_at; alw.fail_at2 = c.fail_at2;
@@ -217,6 +220,8 @@ static FI run17(const Pool &P, const C17Case &c) {
                           : api(fit ? "asm_assemble_str(long, chunk fitting)" : "asm_assemble_str(long)", [&] { return asm_assemble_str(a, prog_long.c_str()); }, rc); if (hit && rc != EXIT_FAILURE) { intact(""); asm_destroy_instance(a); return bad("fault-ignored", "growing the buffer failed (" + v.faulted + ") but the call returned " + std::to_string(rc)); } if (!hit && rc != 0) { asm_destroy_instance(a); return bad("harness", "long program failed without fault"); } break;
     case 3: case 6: if (fit) asm_set_chunk_size(a, fit);
       hit = counting_main ? api("asm_assemble_file_counting_chunks(long)", [&] { int cc = 0; return asm_assemble_file_counting_chunks(a, pth.data(), cchunk, &cc); }, rc) : api("asm_assemble_file", [&] { return asm_assemble_file(a, pth.data()); }, rc); if (hit && rc != EXIT_FAILURE) { asm_destroy_instance(a); return bad("fault-ignored", v.faulted + " failed but asm_assemble_file returned " + std::to_string(rc)); } if (!hit && rc != 0) { asm_destroy_instance(a); return bad("harness", "file program failed without fault"); } break;
+    case 7: hit = api("asm_assemble_file(empty)", [&] { return (c.seed & 1) ? assemble_file(a, pth.data()) : asm_assemble_file(a, pth.data()); }, rc); if (hit && rc != EXIT_FAILURE) { asm_destroy_instance(a); return bad("fault-ignored", v.faulted + " failed but asm_assemble_file returned " + std::to_string(rc)); } if (!hit && rc != 0) { asm_destroy_instance(a); return bad("harness", "empty file failed without fault"); } break;
+    case 8: hit = api("asm_assemble_file_counting_chunks(empty)", [&] { return asm_assemble_file_counting_chunks(a, pth.data(), cchunk4, &cnt); }, rc); if (hit && rc != EXIT_FAILURE) { asm_destroy_instance(a); return bad("fault-ignored", v.faulted + " failed but the call returned " + std::to_string(rc)); } if (!hit && rc != 0) { asm_destroy_instance(a); return bad("harness", "empty file failed without fault"); } break;
     case 4: hit = api("asm_assemble_file_counting_chunks", [&] { return asm_assemble_file_counting_chunks(a, pth.data(), cchunk4, &cnt); }, rc); if (hit && rc != EXIT_FAILURE) { asm_destroy_instance(a); return bad("fault-ignored", v.faulted + " failed but the call returned " + std::to_string(rc)); } if (!hit && rc != 0) { asm_destroy_instance(a); return bad("harness", "file program failed without fault"); } break;
     case 5: {
       hit = api("asm_create_bin_file", [&] { return asm_create_bin_file(a, outpath.c_str()); }, rc);
@@ -261,7 +266,7 @@ void prop_c17(hz::Ctx &ctx) {
   if (!have_fi()) { hz::Failure f; f.caseid = "C17|nofi"; f.text = "engine built without fault layer"; f.symptom = "harness"; f.tags = {"sym:harness"}; ctx.fail(f); return; }
   const Pool &P = pool(ctx);
   int variants = ctx.thorough() ? 80 : 16;
-  for (int scn = 0; scn < 7; scn++) for (int var = 0; var < variants; var++) {
+  for (int scn = 0; scn < 9; scn++) for (int var = 0; var < (scn >= 7 ? std::min(variants, 6) : variants); var++) {
     C17Case base; base.scenario = scn; base.seed = ctx.seed * 131 + scn * 17 + var; base.poolseed = ctx.seed;
     // counting run: how many interposed calls does the scenario make (identical in every worker)
     FI cnt = run17(P, base);
